@@ -8,7 +8,7 @@ FACT_MODULES = ['Precis.Facts.Prof']
 
 def correspondence(ctx):
     corr = Corr()
-    impl = rle_check(ctx, corr, ['zs', 'nonascii_zs'], ['zs', 'nonascii_zs'])
+    impl = rle_check(ctx, corr, ['zs', 'nonascii_zs', 'opmap_after', 'nickmap_mid'], ['zs', 'nonascii_zs', 'opmap_after', 'nickmap_mid'])
     zs = [c for s_, e, v in impl['zs'] if v == '1' for c in range(s_, e + 1)]
     corr.count('zs_code_points', len(zs))
     alpha = SPACES + PLAIN
@@ -43,7 +43,7 @@ def correspondence(ctx):
 
     evaluate(corr, res, nontrivial)
     corr.exhaustive = True
-    corr.rule = (f'is_space_separator over ALL scalars vs model and vs the independent UnicodeData parse; Nickname and OpaqueString additional mapping rules and find_disallowed_space on ALL strings of length <= {maxlen} over '
+    corr.rule = (f'is_space_separator over ALL scalars, and both additional mapping rules with EVERY scalar c placed after a non-ASCII space / between two letters (so that nothing but Zs is ever touched), vs model and vs the independent UnicodeData parse; Nickname and OpaqueString additional mapping rules and find_disallowed_space on ALL strings of length <= {maxlen} over '
                  '{U+0020, U+00A0, U+2003, U+3000} x {1-,2-,3-,4-byte non-spaces}; all Zs code points in 9 placements; random longer strings. '
                  'distinct_nontrivial = distinct (operation, pattern of ASCII-space / other-Zs / UTF-8 length per character) among strings containing a space')
     return corr
